@@ -80,9 +80,16 @@ def elsewhere_files(case):
     e = case.get("elsewhere", "none")
     if e in ("none", "module_twin"):
         return []
-    ren = '#[serde(rename = "ApiTarget")]\n' if e == "same_ident_renamed" else ""
+    ren = '#[serde(rename = "ApiTarget")]\n' if e.startswith("same_ident_renamed") else ""
     src = f"#[typeshare]\n{ren}pub struct Target {{ pub api: bool }}\n#[typeshare]\npub struct ApiOnly {{ pub a: u32 }}\n"
-    return [{"src": src, "crate": "api", "path": "api/src/lib.rs", "out": "api"}]
+    # the other crate's name sorts before (api) or after (zzz_api) the crate under test (cratex): tables keyed by the Rust identifier
+    # must keep one entry PER CRATE, whichever crate is seen last
+    crate = "zzz_api" if e.endswith("_later_crate") else "api"
+    out = [{"src": src, "crate": crate, "path": f"{crate}/src/lib.rs", "out": crate}]
+    if e.endswith("_later_crate"):
+        third = '#[typeshare]\n#[serde(rename = "ThirdTarget")]\npub struct Target { pub third: bool }\n'
+        out.append({"src": third, "crate": "mmm_third", "path": "mmm_third/src/lib.rs", "out": "mmm_third"})
+    return out
 
 
 def leaves(ty, acc):
@@ -250,7 +257,7 @@ def run(chk):
                          f"{lang}: {site} reference to the outer `Target` is spelled `{e['ref']}`, the name of v2::Target; required `{exp}`",
                          {"case": case, "lang": lang, "site": site}, exp, e["ref"])
             continue
-        where = lang + ("+folder" if case.get("mode") == "folder" else "") + (":" + case["elsewhere"] if case.get("elsewhere", "none") != "none" else "")
+        where = lang + ("+folder" if case.get("mode") == "folder" else "") + (":" + case["elsewhere"].replace("_later_crate", "") if case.get("elsewhere", "none") != "none" else "")
         kind_dim = case["kind"]
         if kind_dim in ("sas_struct", "sas_enum") and sib_key(lang, dict(case, kind="-"), site) in bad_alias:
             kind_dim = "alias"
